@@ -15,6 +15,8 @@
     bounding box of the pair is left alone and every other grid cell is multiplied exactly once, i.e. with the tight
     box a site weighs `initial · factor ^ (number of matched pairs whose box does not contain it)`
     (`tight_total_count`, any list of active pairs on the grid);
+  * `empty_background_distance_1` — the first `mwpm` call of a decode (no matched pairs yet): algorithm 1 weighs a pair
+    of same-type plaquettes `initial` times half their taxi-cab distance — the plain MWPM weight of C14;
   * `distance_both_virtual_zero` — two virtual indices are at distance 0 for every algorithm and background;
   * `distance_algorithm_2_symmetric` — algorithm 2 (down-across / across-down minimum) does not depend on the orientation
     of the pair;  algorithm 1 DOES (`distance_algorithm_1_not_symmetric`: a concrete background, kernel-evaluated; the
@@ -25,6 +27,7 @@
   `FloatingPointError`), and any optimality statement about the converged matching (not claimed by C02).
 -/
 import QecVerif.Model.StepGrid
+import QecVerif.Lemmas.StepGrid
 namespace Qec.C02.StepGrid
 open Qec Qec.StepGrid
 
@@ -157,6 +160,28 @@ theorem tight_total_count (R C : Int) (ps : List (Idx × Idx)) (r c : Int)
       simp [List.filter_cons, hi]
     · rw [count_tight_outside R C p.1 p.2 r c hi hgr hgc ho.1 ho.2]
       simp [List.filter_cons, hi]; omega
+
+/-- **first iteration = plain MWPM weights**: without matched pairs (the background of the first `mwpm` call of every
+    decode) algorithm 1 weighs a pair of same-type plaquettes, `2a` rows and `2b` columns apart, `(a + b) · initial` —
+    `initial` times the number of sites on the path, i.e. half the taxi-cab distance, the weight `PlanarMWPMDecoder`
+    uses (C14) -/
+theorem empty_background_distance_1 (R C : Int) (initial factor : Rat) (sh : Shape) (src tgt : Idx) (a b : Nat)
+    (hb : (Planar.inBounds R C src.1 src.2 || Planar.inBounds R C tgt.1 tgt.2) = true)
+    (hs : (src.1 + 1) % 2 ≠ (src.2 + 1) % 2) (ht : (tgt.1 + 1) % 2 ≠ (tgt.2 + 1) % 2)
+    (hty : (src.1 + 1) % 2 = (tgt.1 + 1) % 2)
+    (ha : max (src.1 + 1) (tgt.1 + 1) = min (src.1 + 1) (tgt.1 + 1) + (2 * a : Nat))
+    (hbb : max (src.2 + 1) (tgt.2 + 1) = min (src.2 + 1) (tgt.2 + 1) + (2 * b : Nat)) :
+    bgDistance R C initial factor sh [] 1 src tgt = ((a + b : Nat) : Rat) * initial := by
+  unfold bgDistance
+  rw [distance_alg1_eq, hb, cell_nil, ha, hbb]
+  simp only [Bool.not_true, Bool.false_eq_true, if_false]
+  have e : (fun c : Int => if (tgt.1 + 1) % 2 = c % 2 then initial else (0 : Rat)) =
+      (fun c => if c % 2 = (tgt.1 + 1) % 2 then initial else 0) := by
+    funext c; by_cases h : (tgt.1 + 1) % 2 = c % 2
+    · rw [if_pos h, if_pos h.symm]
+    · rw [if_neg h, if_neg (fun k => h k.symm)]
+  rw [e, sumRange_parity initial (src.2 + 1) _ a (by omega), sumRange_parity initial (tgt.1 + 1) _ b (by omega)]
+  simp [Rat.add_mul]
 
 /-- algorithm 1 depends on the orientation (3x3 lattice, one matched pair, factor 3) -/
 theorem distance_algorithm_1_not_symmetric :
